@@ -87,6 +87,10 @@ func (k *kernel) constSpelling(e ast.Expr) (string, bool) {
 
 // kind: 'f' float, 'p' Prop (a comparison), 'b' Bool
 func (k *kernel) expr(e ast.Expr) (string, int, byte) {
+	if k.isInt(e) {
+		s, p := k.intExpr(e)
+		return s, p, 'i'
+	}
 	if lit, ok := e.(*ast.BasicLit); ok { // a literal keeps its source spelling when Lean reads it the same way
 		if lit.Kind == token.INT && reInt.MatchString(lit.Value) {
 			return lit.Value, pAtom, 'f'
@@ -113,14 +117,17 @@ func (k *kernel) expr(e ast.Expr) (string, int, byte) {
 			return e.Name, pAtom, 'b'
 		}
 		if v != nil && v.kind == vBool {
+			k.use(v)
 			return v.lean, pAtom, 'b'
+		}
+		if v != nil && (v.kind == vSlice || v.kind == vList) {
+			k.use(v)
+			return v.lean, pAtom, 'l'
 		}
 		if v == nil || v.kind != vFloat {
 			k.fail(e, "identifier %s is not a float64 variable or constant of the subset", e.Name)
 		}
-		if !v.inLoop && !v.param && !v.state && k.inLoop {
-			k.liveIn[v] = true
-		}
+		k.use(v)
 		return v.lean, pAtom, 'f'
 	case *ast.UnaryExpr:
 		switch e.Op {
@@ -145,12 +152,32 @@ func (k *kernel) expr(e ast.Expr) (string, int, byte) {
 			return paren(l, lp, prec) + " " + e.Op.String() + " " + paren(r, rp, prec+1), prec, 'f'
 		case token.LSS, token.LEQ, token.GTR, token.GEQ:
 			op := map[token.Token]string{token.LSS: "<", token.LEQ: "≤", token.GTR: ">", token.GEQ: "≥"}[e.Op]
+			if k.isInt(e.X) || k.isInt(e.Y) {
+				l, lp := k.intExpr(e.X)
+				r, rp := k.intExpr(e.Y)
+				return paren(l, lp, pCmp+1) + " " + op + " " + paren(r, rp, pCmp+1), pCmp, 'p'
+			}
 			l, lp := k.num(e.X)
 			r, rp := k.num(e.Y)
 			return paren(l, lp, pCmp+1) + " " + op + " " + paren(r, rp, pCmp+1), pCmp, 'p'
 		case token.EQL, token.NEQ:
 			if s, ok := k.nilTest(e); ok {
 				return s, pAtom, 'b'
+			}
+			if x, ok := e.X.(*ast.Ident); ok && isIdent(e.Y, "nil") && k.lookup("nil") == nil {
+				if v := k.lookup(x.Name); v != nil && v.kind == vErrFlag { // err != nil of a configuration check
+					k.use(v)
+					if e.Op == token.NEQ {
+						return v.lean, pAtom, 'b'
+					}
+					return "!" + v.lean, pApp, 'b'
+				}
+			}
+			if k.isInt(e.X) || k.isInt(e.Y) {
+				l, lp := k.intExpr(e.X)
+				r, rp := k.intExpr(e.Y)
+				op := map[token.Token]string{token.EQL: "=", token.NEQ: "≠"}[e.Op]
+				return paren(l, lp, pCmp+1) + " " + op + " " + paren(r, rp, pCmp+1), pCmp, 'p'
 			}
 			l, lp := k.num(e.X)
 			r, rp := k.num(e.Y)
@@ -168,10 +195,50 @@ func (k *kernel) expr(e ast.Expr) (string, int, byte) {
 			r, rp := k.boolean(e.Y)
 			return paren(l, lp, prec) + " " + op + " " + paren(r, rp, prec+1), prec, 'b'
 		}
+	case *ast.IndexExpr:
+		if s, ok := k.sliceRead(e); ok {
+			return s, pApp, 'f'
+		}
+	case *ast.CompositeLit:
+		if at, ok := e.Type.(*ast.ArrayType); ok && at.Len == nil && isIdent(at.Elt, "float64") && k.lookup("float64") == nil {
+			var els []string
+			for _, el := range e.Elts {
+				if _, isKV := el.(*ast.KeyValueExpr); isKV {
+					k.fail(e, "keyed slice literal")
+				}
+				s, _ := k.num(el)
+				els = append(els, s)
+			}
+			return "[" + strings.Join(els, ", ") + "]", pAtom, 'l'
+		}
 	case *ast.CallExpr:
-		if s, nout, ok := k.callFn(e); ok {
-			if nout != 1 {
-				k.fail(e, "call with %d results where one float64 is expected", nout)
+		if h := k.hoisted[e]; h != nil {
+			return h.name, pAtom, map[string]byte{"α": 'f', "Bool": 'b', "List α": 'l', "Int": 'i'}[h.typ]
+		}
+		if k.conversion(e, "float64") { // float64(i) of an int (a constant argument was folded above)
+			if k.isInt(e.Args[0]) {
+				s, p := k.intExpr(e.Args[0])
+				return "Num.ofInt " + paren(s, p, pAtom), pApp, 'f'
+			}
+			return k.expr(e.Args[0])
+		}
+		if isIdent(e.Fun, "make") && k.lookup("make") == nil && len(e.Args) == 2 {
+			if at, ok := e.Args[0].(*ast.ArrayType); ok && at.Len == nil && isIdent(at.Elt, "float64") {
+				s, p := k.intExpr(e.Args[1])
+				return "mkSlice " + paren(s, p, pAtom), pApp, 'l'
+			}
+		}
+		if s, outs, ok := k.callTyped(e); ok {
+			if len(outs) != 1 {
+				k.fail(e, "call with %d results where one float64 is expected", len(outs))
+			}
+			switch outs[0] {
+			case "Bool":
+				return s, pApp, 'b'
+			case "List α":
+				return s, pApp, 'l'
+			case "Int":
+				return s, pApp, 'i'
 			}
 			return s, pApp, 'f'
 		}
@@ -187,6 +254,13 @@ func (k *kernel) expr(e ast.Expr) (string, int, byte) {
 			break
 		}
 		if v := k.lookup(x.Name); v != nil {
+			if v.kind == vList && (sel.Sel.Name == "Get" || sel.Sel.Name == "Get1") && len(e.Args) == 1 {
+				if !k.whole {
+					k.fail(e, "table read inside an expression of a function judged total")
+				}
+				k.use(v)
+				return "sliceGet " + v.lean + " " + k.listIndex(e, sel.Sel.Name == "Get1"), pApp, 'f'
+			}
 			if v.kind == vSeries && (sel.Sel.Name == "Get" || sel.Sel.Name == "Get1") && len(e.Args) == 1 {
 				if v.isNil {
 					k.fail(e, "read of series %s, which is nil at this call", v.name)
@@ -228,27 +302,6 @@ func (k *kernel) expr(e ast.Expr) (string, int, byte) {
 	}
 	k.fail(e, "expression %T", e)
 	return "", 0, 0
-}
-
-// a call of a helper function of the module (or of a bound function-valued parameter): `name a b c`, number of results
-func (k *kernel) callFn(e *ast.CallExpr) (string, int, bool) {
-	r := k.resolveFunc(e.Fun)
-	if r == nil {
-		return "", 0, false
-	}
-	if _, _, ok := floatSignature(r.fd.Type); !ok {
-		return "", 0, false
-	}
-	h := k.helper(e, r)
-	if len(e.Args) != h.nin || e.Ellipsis.IsValid() {
-		k.fail(e, "call of %s with %d arguments", h.lean, len(e.Args))
-	}
-	args := []string{h.lean}
-	for _, a := range e.Args {
-		s, p := k.num(a)
-		args = append(args, paren(s, p, pAtom))
-	}
-	return strings.Join(args, " "), h.nout, true
 }
 
 // `series != nil` / `series == nil`: decided by the call site for a sub-kernel, else under the non-nil assumption of the table
